@@ -681,8 +681,9 @@ def run(tier, prop=PROP):
             raise c.MachineryError(r["machinery"])
     fresh = [result_digest(hres[i]["res"][0]) for i in range(len(pool))]
     for i, d in enumerate(fresh):
-        if d.startswith("ERR:") and "catalogue" not in pool[i]["label"]:
-            raise c.MachineryError("history input '%s' fails in a fresh process: %s" % (pool[i]["label"], hres[i]["res"][0].get("msg")))
+        if d.startswith("ERR:"):      # every input of the pool is inside the domain of gen_params: the code must not raise on it
+            ck.violation({"kind": "I->S history input", "input": pool[i], "error": hres[i]["res"][0]},
+                         what="gen_params raised in a fresh process on the in-domain input '%s': %s" % (pool[i]["label"], hres[i]["res"][0].get("msg")))
     traces = [[{"inp": i, "out": result_digest(r)} for i, r in zip(h, hres[len(pool) + k]["res"])] for k, h in enumerate(rh)]
     ck.extra["random_histories"] = {"histories": len(rh), "runs": sum(len(h) for h in rh), "pool": [p["label"] for p in pool]}
     ck.sample({"I->S history": [pool[i - 1]["label"] for i in rh[0]], "recorded": traces[0]})
